@@ -21,7 +21,7 @@ def dispatch (toks : List String) (impl : Option String) : Option (String × Str
   | [] => none
   | t :: _ =>
     if t == "wstr.rt" then WStr.handle toks impl
-    else if t == "utf.detect" || t == "utf.read" || t == "utf.write" then UtfStream.handle toks impl
+    else if t == "utf.detect" || t == "utf.detects" || t == "utf.read" || t == "utf.write" then UtfStream.handle toks impl
     else if t.startsWith "utf." then Utf.handle toks impl
     else if t.startsWith "bs." then BinStream.handle toks impl
     else if t == "mp.obj" || t == "mp.obj2" then MpObj.handle toks impl
